@@ -211,7 +211,7 @@ impl Segment {
             let mut buf_seg = cand_seg;
             let mut buf_str = cand_graph.clone();
             for d in DIACRITS.iter() {
-                if self.match_modifiers(&d.prereqs).is_ok() && self.match_modifiers(&d.payload).is_ok() {
+                if self.match_modifiers(&d.prereqs).is_ok() && self.match_modifiers(&d.payload).is_ok() && buf_seg.match_modifiers(&d.prereqs).is_ok() {
                     let before = buf_seg;
                     buf_seg.apply_diacritic_payload(&d.payload);
                     if buf_seg == before {
